@@ -80,7 +80,17 @@ def gen_set(rnd, n):
         w1, w2 = rnd.choice(['UBER', 'EATS', 'STAR']), rnd.choice(['AMZN', 'MKTP', 'STAR'])
         rules[j].match, rules[k].match = 'contains("%s")' % w1, 'contains("%s")' % w2
         rules[j].priority = rules[k].priority = None
-    return R.RuleFile(variables=list(PREAMBLE), rules=rules)
+    rf = R.RuleFile(variables=list(PREAMBLE), rules=rules)
+    if n >= 2 and rnd.random() < .25:
+        # a rule re-binds a GLOBAL variable with let: - the new value is that rule's alone, whatever the order of the rules
+        rf.variables = list(rf.variables) + [('lim', rnd.choice(['500', '99.99', '1e9']))]
+        j, k = rnd.sample(range(n), 2)
+        w = rnd.choice(WORDS)
+        rules[j].lets = [('lim', rnd.choice(['-1e9', '10', '0.5']))]
+        rules[j].match = 'contains("%s") and amount > lim' % w
+        rules[k].match = 'contains("%s") and amount > lim and month >= 0' % w
+        rules[j].priority = rules[k].priority = None
+    return rf
 
 
 def dominance_pair(rnd, basic=False):
